@@ -535,7 +535,7 @@ def expand(fn, fb, pos, depth=3):
 def sleep_blockers_rule(rep):
     from engine.kinds import derives_from
     SP_ = facts(rep, lib("thread_pools", "src/scheduled_thread_pool.cpp"),
-                [r"::(local_priority_queue_scheduler|local_queue_scheduler|static_queue_scheduler|static_priority_queue_scheduler)::(get_next_thread|get_queue_length)$"])
+                [r"::(local_priority_queue_scheduler|local_queue_scheduler|static_queue_scheduler|static_priority_queue_scheduler)::(get_next_thread|get_queue_length|wait_or_add_new)$"])
     byclass = {}
     for f in SP_.fns:
         if not f.pattern and f.parent == -1:
@@ -572,5 +572,24 @@ def sleep_blockers_rule(rep):
                 rep.bad("C19.R6", g, loc_of(mine[0][2]) if mine else g.loc, "sleep-blocked-by:" + m, "%s: get_queue_length(num_thread) counts %s, but get_next_thread pops it %s: a task "
                         "that arrives there while the worker is in pre_sleep (running == false) can neither be run by that worker nor let it reach queue length 0 - the worker spins in "
                         "pre_sleep for ever and the suspend call that waits for it never returns" % (cls.rsplit("::", 1)[-1], m, "only after the test of '%s'" % running if mine else "nowhere"))
+        # the same for the conversion of staged tasks: get_queue_length counts them too, and only the owner converts its own queue
+        for w in fs_.get("wait_or_add_new", [])[:1]:
+            runw = [q["name"] for q in w.params if (q.get("type") or "").strip() == "bool"]
+            if not runw:
+                continue
+            ffw = FactFlow(w, eh=False)
+            is_conv = lambda e: e.get("k") == "call" and callee_short(e) == "wait_or_add_new" and e.get("recv") is not None and P(e["recv"]) != "this"
+            for m in sorted(counted):
+                mine = [(b, i, e) for b, i, e in w.all_events() if is_conv(e) and derives_from(w, e["recv"], lambda t, m=m: ("this->" + m) in t)]
+                if not mine:
+                    continue
+                free = [(b, i, e) for b, i, e in mine if (runw[0], True) not in (ffw.before.get((b, i)) or frozenset())]
+                n += 1
+                if free:
+                    rep.ok("C19.R6", w, "staged tasks of %s (counted by get_queue_length) are converted without requiring '%s'" % (m, runw[0]))
+                else:
+                    rep.bad("C19.R6", w, loc_of(mine[0][2]), "sleep-blocked-by-staged:" + m, "%s: get_queue_length(num_thread) counts the staged tasks of %s, but wait_or_add_new converts them only "
+                            "after the test of '%s': tasks staged on a worker that is then switched to pre_sleep (it was busy when they were submitted) are neither converted - only the "
+                            "owner converts its own queue - nor let the worker reach queue length 0; the suspend call never returns and the tasks never run" % (cls.rsplit("::", 1)[-1], m, runw[0]))
     if n < 3:
         raise AnalysisBroken("C19.R6 examined only %d (scheduler, queue member) pairs" % n)
